@@ -437,6 +437,9 @@ impl Ctx {
 
     /// RNG of one case: a function of (seed, property, family, idx) only.
     pub fn case_rng(&self, family: &str, idx: u64) -> Rng {
+        // every case names itself in the write-ahead slot, so that a shard that dies (an abort is not a panic:
+        // a failed unsafe-precondition check, a stack overflow, an allocation failure) can be re-run on that case alone
+        slot_write(idx, &format!("{}|case", family), &[]);
         Rng::new(&[self.seed, hash64(self.prop.as_str()), hash64(family), idx])
     }
 
